@@ -13,12 +13,22 @@ T, BR = CaptionNode.create_text, CaptionNode.create_break
 ADVERSARIAL = ["-->", "a --> b", "&amp;lt;", "&lt;", "<i>", "</i>", "<b>bold</b>", "]]>", "<![CDATA[x]]>", "&#65;", "&#x41;",
                "&nbsp;", "\"quoted\"", "it's", "a & b", "x < y > z", "<v Bob>", "</span>", "<br/>", "<p>", "&", "<", ">",
                "1", "00:00:01,000 --> 00:00:02,000", "{1}{2}", "WEBVTT", "<!-- c -->", "a b", "Ünï çødé ♪", "tab\there",
-               "  padded  ", "semi;colon", "%s %d {0}", "\\n", "<sync start=\"1\">", "&unknown;", "&amp", "<<>>", "--", "->"]
+               "  padded  ", "SCORE   HOME  2", "Wait.  What?", "semi;colon", "%s %d {0}", "\\n", "<sync start=\"1\">", "&unknown;", "&amp", "<<>>", "--", "->"]
 META = "&<>-;#\"'a 1/"
 
 
 def norm(s):
     return " ".join(s.replace(" ", " ").split())
+
+
+def edges(s):
+    """a line up to leading / trailing whitespace (what the statement allows a writer to change)"""
+    return s.strip(" \t\u00a0\r\n")
+
+
+# XML / HTML parsers may collapse white space inside a line (xml:space="default", HTML rendering);
+# the plain-text formats have no such rule: their lines must come back character for character
+EXACT = {"srt", "webvtt", "microdvd"}
 
 
 def texts(ctx):
@@ -98,8 +108,9 @@ def bounded(ctx, b):
                     cues = parse(fmt, doc)
                 except parsers.FormatError as e:
                     return False, {"format": fmt, "not_conformant": str(e), "doc": doc[-500:]}
-                got = [[norm(x) for x in cue if norm(x)] for cue in cues]
-                exp = [["before"], want_mid, ["after"]]
+                f = edges if fmt in EXACT else norm
+                got = [[f(x) for x in cue if f(x)] for cue in cues]
+                exp = [["before"], [f(x) for x in lines if f(x)], ["after"]]
                 return got == exp, {"format": fmt, "lines": lines, "variant": variant, "parsed": got, "expected": exp, "doc": doc[-400:]}
             b.guard((fmt, tuple(lines), variant), one, sample={"format": fmt, "lines": lines, "variant": variant})
 
